@@ -65,6 +65,7 @@ def judge(chk, c):
     found = []
     files = {'schema.exp': c.lib.schema.text(), 'in.p21': text}
     res = {}
+    msgs = {}
     with p21fam.Scratch('c15') as sc:
         inp = sc.write('in.p21', text)
         for mode in ('lenient', 'strict'):
@@ -79,6 +80,7 @@ def judge(chk, c):
             ops = p21fam.mon_ops(rm.out)
             sev = ops[0][1].get('sev') if ops else None
             res[mode] = (r.rc, sev, sc.read('out_%s.p21' % mode))
+            msgs[mode] = (r.out + '\n' + r.err + '\n' + '\n'.join(p21fam.mon_msgs(rm.out)))
     for mode, (rc, sev, out) in res.items():
         if c.where == 'complex part' and not c.optional:
             # open finding (same root cause as C03's): parts of a complex instance are always read strictly and their severity is dropped,
@@ -104,6 +106,13 @@ def judge(chk, c):
             found.append(('lenient substitution refused|required %s' % c.kind,
                           'missing required %s in lenient mode must be accepted with a user message: exit %s, severity %s' % (c.kind, rc, sev), files))
             continue
+        # "accepts the file with a user message": a message naming the attribute must reach the user (p21read's output or the
+        # reader's error text), not only a severity
+        aname = c03.attr_list(c.lib.schema, c.pop.by_id()[c.k], c.pi)[c.j][1].name.lower()
+        text = msgs.get(mode, '').lower()
+        if 'missing and required' not in text or aname not in text:
+            found.append(('lenient substitution|%s|no user message names the substituted attribute' % c.shape(),
+                          'attribute %s: neither p21read nor the reader\'s error text mentions it' % aname, dict(files, messages=msgs.get(mode, '')[-3000:])))
         try:
             hdr, insts, kind = ref_p21.parse(out or '')
         except ref_p21.P21Error as e:
